@@ -245,7 +245,54 @@ pub fn require_cells(out: &mut Out, prop: &str, cells: &[&str]) {
     }
 }
 
+/// the coverage self-audit against the eleven classes (DESIGN.md §4, "Coverage audit" of C11 / C12 / C13)
+pub fn audit(prop: &str) -> serde_json::Value {
+    match prop {
+        "C11" => json!({
+            "1 entry paths": "CLOSED: every pub fn / enum variant / struct field of recovery.rs, manifest.rs, checkpoint.rs enumerated from the source (stream_api.rs) and accounted for; newly driven: recover_with_progress (RECP + progress oracle), needs_recovery, ManifestManager::{load_or_create, add_segment, update, exists}, Manifest::{segments_after, totals}, CheckpointManager::{create_checkpoint, load_checkpoint, should_checkpoint}; the PRODUCTION start-up sequence (recover + apply, then WAL through a second apply_recovered_state) = APPLY2. OPEN: CheckpointManager::new (= with_time_source), accessors",
+            "2 input alphabet": "CLOSED: keys '', non-ASCII, colliding; values empty / binary / hash / counter / set kinds (c07 generator 1/10), expiries, vector clocks; a 256 KiB value under a 4 KiB key through flush + every crash point (c12 corpus). OPEN: keys are Rust Strings (non-UTF-8 keys cannot be constructed)",
+            "3 comparisons at equality": "CLOSED: add_segment id at / above next_segment_id (MMADD), checkpoint last_segment_id = / above next-1 (covering_checkpoint), segments_after at max_timestamp -1/0/+1, should_checkpoint at min_segments -1/0/+1 and at timestamp + interval -1/0/+1, recovery's `id > last` by covered segments, WAL truncate_before at a stamp -1/0/+1. OPEN: ties in min_timestamp between segments occur by duplication, not targeted",
+            "4 configuration": "CLOSED: CheckpointConfig.interval / min_segments generated incl. 0, Duration::MAX, 2^64+384 ms (as u64 truncation modelled). OPEN: compression_enabled (feature not built)",
+            "5 capacity thresholds": "OPEN: u64 ids / versions near overflow are not generated (Nat in the model); {:08} id formatting beyond 8 digits",
+            "6 fault kinds": "CLOSED: every get of a recovery fails / returns empty / truncated / flipped bodies (recover_under_read_faults), missing and torn segments, torn checkpoint; OPEN: WAL file-level faults are C09/C10's",
+            "7 history shapes": "CLOSED: second recovery, second application, checkpoint before first flush, covered segments, WAL that went through truncate_before with interleaved stamps (middle file deleted: hole in the sequence) — round-5 seed C11-wal-replay-stops-at-sequence-hole; restart on LocalFs (c12fs)",
+            "8 node-global state": "CLOSED: 16 shard clocks, per-shard split of recovered keys (router independent: theorem), hwm across segments",
+            "9 observations": "CLOSED: deltas in order, checkpoint map, fold, applied node state (snapshot + GET/HGETALL), manifest fields incl. version / next / inv, recover_with_progress stats vs recover",
+            "10 finding absorption": "CLOSED: dropped WAL entries signed by cause (hwm filter only when exactly the entries below the mark are gone; else C11:wal:entry-of-surviving-file-not-recovered)",
+            "11 harness fragility": "CLOSED: every case under a panic guard (C11:case-panicked:*), source-derived paths, empty-cell assertions (require_cells), stale-table / unscannable-source violations"
+        }),
+        "C12" => json!({
+            "1 entry paths": "CLOSED: persistence.rs, integration.rs, write_buffer.rs, delta_sink.rs, object_store.rs, config.rs, clock.rs enumerated from the source; newly driven: the REAL worker pipeline of start_workers (sink, bridge, bounded mailbox, actor; shutdown; compaction worker wiring), should_flush / back-pressure of push, WriteBuffer + FlushWorker + both PersistenceWorkers, LocalFsObjectStore (every trait fn), create_integration / new_local_fs, recover on LocalFs. OPEN: PersistenceMessage::{PushDelta, Flush} and PersistenceActorHandle::{push_delta, flush} have no producer reachable from outside the module (modelled and covered by the theorems, not driven); S3 (feature-gated)",
+            "2 input alphabet": "CLOSED: key byte lengths 0..11 incl. multi-byte characters (estimate_delta_size reads len()), 256 KiB value / 4 KiB key / empty key and value through flush, torn put, compaction and every crash point",
+            "3 comparisons at equality": "CLOSED: buffer_size >= max_size_bytes / backpressure_threshold_bytes (key length aimed at limit-1 / limit / limit+1), len >= max_deltas, has_elapsed with the clock advanced to interval-1 / interval / interval+1 ms incl. sub-millisecond intervals; mailbox length = capacity (10000 queued, the next try_send dropped)",
+            "4 configuration": "CLOSED: all four WriteBufferConfig fields generated incl. 0 / 1 / usize::MAX / Duration::ZERO / Duration::MAX; StreamingConfig.compaction.* copied into the worker's config checked field by field (ACOMPACT). OPEN: compression_enabled; in the real pipeline only flush_interval 0 / 'never' are deterministic (real-time Instant in the bridge), the other intervals are tied through the step functions on the virtual clock",
+            "5 capacity thresholds": "CLOSED: PERSISTENCE_CHANNEL_CAPACITY read from the source, compared with the model (XCAP) and crossed by a generated case. OPEN: usize overflow of buffer_size (checked_add panic) unreachable",
+            "6 fault kinds": "CLOSED: error without effect and error after a torn object on every put (segment, temp manifest), get / rename / delete errors, read corruption kinds, death at every call; start_workers with an unreadable manifest; failed flushes inside the actor (retried by the next trigger, kept at shutdown). OPEN: LocalFs-specific errno classes (permission, ENOSPC) are not injected; power loss (no fsync in LocalFs put) is outside the property (process death)",
+            "7 history shapes": "CLOSED: restart on every crash image that holds an orphan, restart of the worker pipeline on LocalFs, sends after shutdown, last batch left in the sink at shutdown, emptied-then-refilled buffer after failed flushes",
+            "8 node-global state": "CLOSED: cached manifest vs store (reload per flush), shared temp-manifest name, the mailbox / sink shared by the three tasks. OPEN (stated): WriteBuffer's segment_counter restarts at 0 in a second incarnation and its segments are never listed by a manifest: recovery does not read that pipeline at all — only C12's third sentence applies to it",
+            "9 observations": "CLOSED: every field of the stored manifest (MAN / AMAN: version, replica id, next id, per segment id / count / size / min / max stamp, key derived from id), pending_count / pending_bytes after every push and flush, store-call count, recovered deltas, which updates are missing after shutdown",
+            "10 finding absorption": "CLOSED: the new finding is keyed by cause (WriteBuffer::flush returned Err and pending shrank); any other discarded accepted update = C12:write-buffer:accepted-update-discarded / C12:accepted-update-discarded (violations)",
+            "11 harness fragility": "CLOSED: a process that cannot restart or recover on a crash image is a finding (was: expect → harness exit, round-5 seed C12-manifest-load-promotes-leftover-tmp), every case under a panic guard, scratch directories below the run's output directory and removed, empty-cell assertions, source-derived capacity / entry tables"
+        }),
+        "C13" => json!({
+            "1 entry paths": "CLOSED: compaction.rs enumerated from the source; newly driven: needs_compaction, compact_if_needed, CompactionWorker::{new, run}, CompactionWorkerHandle::shutdown, Compactor::new through start_workers",
+            "2 input alphabet": "CLOSED: as C11 (shared generators): hashes, tombstones, expiries, vector clocks, stamps near 2^63 and u64::MAX",
+            "3 comparisons at equality": "CLOSED: segments.len() >= max_segments at len-1 / len / len+1, size_bytes < target_segment_size with the target at a listed segment's size -1/0/+1 (sizes from a dry run), time < tombstone_cutoff with the cutoff at a tombstone's stamp -1/0/+1 through several (now, ttl) pairs, candidates vs min_segments_to_compact / max_segments_per_compaction incl. 0 / 1 / huge",
+            "4 configuration": "CLOSED: every CompactionConfig field generated incl. extremes (max_segments newly); OPEN: compression_enabled",
+            "5 capacity thresholds": "OPEN: record_count as u32, u64 id overflow — unreachable sizes",
+            "6 fault kinds": "CLOSED: one read of the pass failing / empty / truncated / flipped; store faults inside histories; panics of compact() caught and reported",
+            "7 history shapes": "CLOSED: repeated compactions (compactions of compacted segments, 2..5 passes), compact and compact_if_needed mixed, failed flush in between, emptied-then-refilled manifest, worker passes separated by flushes; exactness oracle of history_exact after every pass",
+            "8 node-global state": "CLOSED: manifest snapshot of the pass vs concurrent flush (all interleavings), the worker's compactor reused across passes",
+            "9 observations": "CLOSED: recovered state before / after, CompactionResult fields, every manifest field after the pass (MAN), selection rule oracle",
+            "10 finding absorption": "CLOSED: flush-race findings keyed by cause — the listed signatures require OVERLAPPING manifest read-modify-write sections (from task-tagged store-call logs); a violating schedule with serialized sections is a new violation (round-5 seed C13-compactor-sweeps-orphans…); tombstone-GC findings keyed by where the older value lives",
+            "11 harness fragility": "CLOSED: corpus and every generated case under a panic guard, list / exists / head are scheduling points of the gated store, empty-cell assertions"
+        }),
+        _ => json!(null),
+    }
+}
+
 pub fn report(out: &mut Out, prop: &str) {
+    out.extra.insert("audit".into(), audit(prop));
     let mut table: BTreeMap<String, String> = BTreeMap::new();
     let (mut driven, mut not_driven, mut na) = (0u64, 0u64, 0u64);
     for file in files_of(prop) {
